@@ -105,6 +105,21 @@ def handleE2ELiveSrc : List String → Option String
     pure s!"{if v then obs else want ++ ";passes>=2;exit=0"}\t{b2s v}"
   | _ => none
 
+/-- `e2elive cmdline N rescanMs obs` (harness/cmd/sxdiff/e2elive.go): `sx arp --live` of the real binary over several
+    passes.  By `C19_passes_whole_in_order` / `C19_nothing_invented` every pass is the delegate's whole pass (each address
+    once: C01 per pass), by `C19_rescan_interval` the next pass starts no earlier than the rescan time after the previous
+    one ended, by `C19_passes_unbounded` passes keep coming until the scan is cancelled: at least three complete passes
+    were seen, none of them anything but a permutation of the N expected addresses, the shortest gap between two passes
+    is at least the rescan time (2 ms tolerance between two kernel stamps), and the process ended well on SIGINT. -/
+def handleE2ELive : List String → Option String
+  | [_cmd, _n, rescan, obs] => do
+    let d ← parseInt? rescan
+    let v := match kv obs "passes", kv obs "bad", kv obs "mingap", kv obs "exit" with
+      | some k, some b, some g, some e => decide (3 ≤ k) && b == 0 && decide (g ≥ d * 1000 - 2000) && e == 0
+      | _, _, _, _ => false
+    pure s!"{if v then obs else "passes>=3;bad=0;mingap>=" ++ toString (d * 1000) ++ ";exit=0"}\t{b2s v}"
+  | _ => none
+
 /-- `e2eerr cmdline nFrames nErrors obs` (harness/cmd/sxdiff/e2eerr.go): a packet scan whose ARP cache knows only some of
     the hosts and no gateway.  By `C13_cache_stage` (one faithful error per request without a MAC, never a probe) composed with
     `C07_final_full` (every request is one frame or one error on the merged error stream; `C13_error_stream_addrs`) and the logger writing one
